@@ -39,6 +39,9 @@ pub struct Features {
     pub alias_ref: bool,
     pub ident_styles: bool,
     pub float_aggs: bool,
+    /// LIMIT/OFFSET above outer/semi/mark joins (hangs with >1 partition on the
+    /// pinned tree: KF-limit-over-drain-join); off unless a check wants it
+    pub limit_over_drain_joins: bool,
 }
 
 impl Features {
@@ -76,6 +79,7 @@ impl Features {
             alias_ref: true,
             ident_styles: true,
             float_aggs: true,
+            limit_over_drain_joins: false,
         }
     }
 
@@ -954,7 +958,9 @@ impl<'t> Gen<'t> {
             }
         }
         let (mut limit, mut offset) = (None, None);
-        if self.f.limit && self.rng.chance(1, 4) {
+        // a sort is a pipeline breaker: the join pipeline always runs to completion
+        let limit_ok = self.f.limit_over_drain_joins || !order_by.is_empty() || !set_has_drain_join_or_subquery(&body, &ctes);
+        if self.f.limit && limit_ok && self.rng.chance(1, 4) {
             limit = Some(*self.rng.pick(&[0u64, 1, 1, 2, 3, 5, 10, 100]));
             if self.rng.chance(1, 3) {
                 offset = Some(*self.rng.pick(&[0u64, 1, 2, 5]));
@@ -990,4 +996,37 @@ pub fn setup_sql(tables: &[TableDef], chunk: usize) -> Vec<String> {
         }
     }
     out
+}
+
+/// Does the query body (recursively) contain an outer/semi join or a subquery
+/// expression (which compiles to a mark/magic join)?
+fn set_has_drain_join_or_subquery(body: &SetExpr, ctes: &[Cte]) -> bool {
+    let mut q = Query { ctes: ctes.to_vec(), body: body.clone(), order_by: vec![], limit: None, offset: None, out: vec![] };
+    let found = std::cell::Cell::new(false);
+    crate::sql::shrink::visit_query_mut(
+        &mut q,
+        &mut |e| {
+            if matches!(e, Expr::Subq { .. }) {
+                found.set(true);
+            }
+        },
+        &mut |qq| {
+            fn from_has(f: &From) -> bool {
+                match f {
+                    From::Join { kind, left, right, .. } => matches!(kind, JoinKind::Left | JoinKind::Right | JoinKind::Semi) || from_has(left) || from_has(right),
+                    _ => false,
+                }
+            }
+            fn set_has(s: &SetExpr) -> bool {
+                match s {
+                    SetExpr::Select(sel) => sel.from.as_ref().is_some_and(from_has),
+                    SetExpr::Union { left, right, .. } => set_has(left) || set_has(right),
+                }
+            }
+            if set_has(&qq.body) {
+                found.set(true);
+            }
+        },
+    );
+    found.get()
 }
